@@ -35,6 +35,13 @@ import (
 
 const hangTimeout = 30 * time.Second
 
+// hangs counts histories that ended in a deadlock of the code under test; their
+// goroutines cannot be reclaimed, so a run stops generating after maxHangs of
+// them (each is already a reported failing input).
+var hangs int
+
+const maxHangs = 8
+
 // ---------------------------------------------------------------- fakes
 
 // fakeStore answers the two lookups Manager.Lock / LockV2Contract make after
@@ -518,6 +525,9 @@ func (w *world) burst(acts []action) outcome {
 	if o.hang || o.panic != "" {
 		w.dead = true
 	}
+	if o.hang {
+		hangs++ // the goroutines of this history stay blocked for the rest of the process
+	}
 	return o
 }
 
@@ -929,7 +939,7 @@ func TestEngine(t *testing.T) {
 		return
 	}
 	r := vhlib.NewRand(cfg.Seed)
-	for i := 0; i < cfg.N; i++ {
+	for i := 0; i < cfg.N && hangs < maxHangs; i++ {
 		genHistory(t, tr, r, cfg.Len)
 	}
 }
